@@ -18,7 +18,7 @@ func init() {
 			"(1) prefix bytes untouched and the source's observation unchanged by Encode; (2) decoded mapping Equals the source's and the decoded observation is bitwise the source's (bin-for-bin through the fold model when the target is bounded); arbitrary float weights: per bin |decoded-v| <= ulp(v+1); (3) X.DecodeAndMergeWith(Encode(Y)) is identical to X.MergeWith(Y); (4) decoding Encode(A)||Encode(B)||... equals merging A, B, ...; (5) the independent parser recovers the model content. " +
 			"Non-trivial = encoding with >=2 store blocks or a layout other than contiguous counts; distinct = hash of the histories.",
 		Cases:     core.Scale(40000, 1000000),
-		Mandatory: []string{"oracle.roundtrip_equalities", "oracle.append_only_checks", "oracle.source_unchanged", "oracle.decode_merge_equivalence", "oracle.concatenation_checks", "oracle.independent_parse", "oracle.lossy_weight_checks", "layout.positive.index_deltas", "layout.positive.index_deltas_and_counts", "layout.positive.contiguous_counts", "decode.omitted_mapping", "decode.into_bounded_target", "wide.bins_more_than_2^31_apart", "fine_weights.nine_byte_varfloats", "decode.exact_encoding_with_plain_decoder", "encode.of_unread_source"},
+		Mandatory: []string{"oracle.roundtrip_equalities", "oracle.append_only_checks", "oracle.source_unchanged", "oracle.decode_merge_equivalence", "oracle.concatenation_checks", "oracle.independent_parse", "oracle.lossy_weight_checks", "layout.positive.index_deltas", "layout.positive.index_deltas_and_counts", "layout.positive.contiguous_counts", "decode.omitted_mapping", "decode.into_bounded_target", "wide.bins_more_than_2^31_apart", "fine_weights.nine_byte_varfloats", "decode.exact_encoding_with_plain_decoder", "encode.of_unread_source", "decode.into_recycled_stores"},
 		Assumptions: []string{
 			"dyadic weights under the exactness budget survive the (v+1)-1 transform exactly",
 		},
@@ -405,7 +405,29 @@ func runC06(c *core.Ctx) {
 		}
 		var d mon.Sketch
 		var err error
-		if c.Guard("Decode", func() { d, err = mon.Decode(exact, stream, target, supplied) }) {
+		if r.P(0.4) {
+			// stores recycled as the documentation of DecodeDDSketch suggests: an earlier decode of the same
+			// stream, queried, its stores cleared and handed out again by the provider
+			rc := &mon.Recycler{Spec: target}
+			if c.Guard("Decode (earlier life)", func() {
+				d0, e0 := mon.DecodeWith(exact, stream, rc.Provider(), supplied)
+				if e0 == nil {
+					if r.P(0.8) {
+						mon.Observe(d0, nil)
+					}
+					if r.P(0.3) {
+						d0.I().Reweight(2)
+					}
+				}
+				rc.Recycle()
+			}) {
+				return
+			}
+			c.Count("decode.into_recycled_stores", 1)
+			if c.Guard("Decode", func() { d, err = mon.DecodeWith(exact, stream, rc.Provider(), supplied) }) {
+				return
+			}
+		} else if c.Guard("Decode", func() { d, err = mon.Decode(exact, stream, target, supplied) }) {
 			return
 		}
 		if err != nil {
